@@ -1,0 +1,15 @@
+//go:build verif
+
+// Machine-checked contracts for package conf (comment-only; compiled only with -tags verif).
+package conf
+
+// A coercer is a pure function of its input; coval/coerr name its two results, cotype the dynamic type of a
+// successful result (the schema constructor pairs a coercer with its destination type).
+//@ specfun coval(Fn, Iface) Iface
+//@ specfun coerr(Fn, Iface) Iface
+//@ specfun cotype(Fn) Int
+//@ functype CoercerFunc(self, original)
+//@   pure
+//@   ensures result0 == coval(self, original)
+//@   ensures result1 == coerr(self, original)
+//@   ensures result1 == nil ==> dyn(result0) == cotype(self)
